@@ -1,4 +1,6 @@
 import Driver.Parse
+import KmipModel.Decode
+import KmipModel.Spec
 /-
   kvdriver: one request per input line, one reply per output line.  Runs the executable model and the
   executable specifications on the inputs the Go harness also gives to the real code.
@@ -22,6 +24,24 @@ def step (line : String) : String :=
   | "canon" :: ty :: rest =>
     match findSD ty, parseVal rest with
     | some sd, some (v, []) => "ok " ++ toHex (canonTop sd v).ser
+    | _, _ => "bad-op"
+  -- dec TYPE FIN HEX: Decoder.Decode(&T{}) on a fresh decoder over the bytes; FIN = eof | ioerr
+  | ["dec", ty, fin, hex] =>
+    match findSD ty, fromHex hex, (if fin = "eof" then some Fin.eof else if fin = "ioerr" then some Fin.ioerr else none) with
+    | some sd, some bs, some f =>
+      match decodeSD sd bs f with
+      | .ok (v, n, _) => s!"ok {n} " ++ showVal v
+      | .err .eof => "eof"
+      | .err .other => "err"
+      | .panic s => "panic " ++ s
+    | _, _, _ => "bad-op"
+  -- spec TYPE HEX: the independent reader/schema matcher
+  | ["spec", ty, hex] =>
+    match findSD ty, fromHex hex with
+    | some sd, some bs =>
+      match specDecode sd bs with
+      | some (v, n) => s!"ok {n} " ++ showVal v
+      | none => "none"
     | _, _ => "bad-op"
   | _ => "bad-op"
 
